@@ -39,6 +39,90 @@ func (i *Impl) Sum8(a, b, c, d, e, f, g, h int) int {
 	return a + b + c + d + e + f + g + h + i.K + 6
 }
 func (i *Impl) Join(a, b, c, d string) int { return len(a) + len(b) + len(c) + len(d) + i.K + 7 }
+func (i *Impl) Aaa(a int) int              { return a + i.K + 8 }
+func (i *Impl) Get(a int) int              { return a + i.K + 9 }
+func (i *Impl) Zzz(a int) int              { return a + i.K + 10 }
+
+// local is a variable of a function-local interface type, reachable only through closures.
+type local struct {
+	ptr   interface{}
+	call  func(m string, a int) int
+	words func() [2]uintptr
+	isNil func() bool
+	set   func(i *Impl)
+}
+
+// Two different interface types, both declared as "Store" inside a function: same package path,
+// same printed name, the common method Get at different positions of the sorted method set.
+func newL1() *local {
+	type Store interface {
+		Aaa(a int) int
+		Get(a int) int
+	}
+	var v Store
+	return &local{
+		ptr: &v,
+		call: func(m string, a int) int {
+			if m == "Aaa" {
+				return v.Aaa(a)
+			}
+			return v.Get(a)
+		},
+		words: func() [2]uintptr { return *(*[2]uintptr)(unsafe.Pointer(&v)) },
+		isNil: func() bool { return v == nil },
+		set: func(i *Impl) {
+			if i == nil {
+				v = nil
+			} else {
+				v = i
+			}
+		},
+	}
+}
+
+func newL2() *local {
+	type Store interface {
+		Get(a int) int
+		Zzz(a int) int
+	}
+	var v Store
+	return &local{
+		ptr: &v,
+		call: func(m string, a int) int {
+			if m == "Zzz" {
+				return v.Zzz(a)
+			}
+			return v.Get(a)
+		},
+		words: func() [2]uintptr { return *(*[2]uintptr)(unsafe.Pointer(&v)) },
+		isNil: func() bool { return v == nil },
+		set: func(i *Impl) {
+			if i == nil {
+				v = nil
+			} else {
+				v = i
+			}
+		},
+	}
+}
+
+// L holds the two local-typed variables.
+var L = map[string]*local{"L1": newL1(), "L2": newL2()}
+
+// Ptr is the pointer handed to Builder.Interface for a local-typed variable.
+func Ptr(v string) interface{} { return L[v].ptr }
+
+var realX2 = &Impl{7000}
+
+// Assign is an assignment made by the program itself (not through goom): X = another real
+// implementation, or X = nil.
+func Assign(toNil bool) {
+	if toNil {
+		X = nil
+	} else {
+		X = realX2
+	}
+}
 
 // The mocked variables.
 var (
@@ -50,13 +134,18 @@ var (
 )
 
 var realX, realY, realZ, realW, realV = &Impl{1000}, &Impl{2000}, &Impl{3000}, &Impl{4000}, &Impl{5000}
+var realL1, realL2 = &Impl{8000}, &Impl{9000}
 
 // SetInitial puts the variables into their initial state.
 func SetInitial(realImpl bool) {
 	if realImpl {
 		X, Y, Z, W, V = realX, realY, realZ, realW, realV
+		L["L1"].set(realL1)
+		L["L2"].set(realL2)
 	} else {
 		X, Y, Z, W, V = nil, nil, nil, nil, nil
+		L["L1"].set(nil)
+		L["L2"].set(nil)
 	}
 }
 
@@ -64,6 +153,9 @@ func SetInitial(realImpl bool) {
 //
 //go:noinline
 func Call(v, m string, a int) int {
+	if l := L[v]; l != nil {
+		return l.call(m, a)
+	}
 	switch v + "." + m {
 	case "X.A":
 		return X.A(a)
@@ -99,6 +191,9 @@ func Call(v, m string, a int) int {
 
 // IsNil reports whether variable v is nil.
 func IsNil(v string) bool {
+	if l := L[v]; l != nil {
+		return l.isNil()
+	}
 	switch v {
 	case "X":
 		return X == nil
@@ -124,6 +219,9 @@ func JoinFirst(a int) string {
 
 // Words returns the two words of variable v.
 func Words(v string) [2]uintptr {
+	if l := L[v]; l != nil {
+		return l.words()
+	}
 	switch v {
 	case "X":
 		return *(*[2]uintptr)(unsafe.Pointer(&X))
@@ -141,21 +239,23 @@ func Words(v string) [2]uintptr {
 
 // Methods lists the methods of each variable's interface type.
 var Methods = map[string][]string{
-	"X": {"A", "B", "c"},
-	"Y": {"A", "B", "c"},
-	"Z": {"A", "B", "c", "D", "E"},
-	"W": {"A"},
-	"V": {"Sum8", "Join"},
+	"X":  {"A", "B", "c"},
+	"Y":  {"A", "B", "c"},
+	"Z":  {"A", "B", "c", "D", "E"},
+	"W":  {"A"},
+	"V":  {"Sum8", "Join"},
+	"L1": {"Aaa", "Get"},
+	"L2": {"Get", "Zzz"},
 }
 
 // RealResult is what the real implementation returns.
 func RealResult(v, m string, a int) int {
-	k := map[string]int{"X": 1000, "Y": 2000, "Z": 3000, "W": 4000, "V": 5000}[v]
+	k := map[string]int{"X": 1000, "Y": 2000, "Z": 3000, "W": 4000, "V": 5000, "X2": 7000, "L1": 8000, "L2": 9000}[v]
 	switch m {
 	case "Sum8":
 		return a + 2 + 3 + 4 + 5 + 6 + 7 + 8 + k + 6
 	case "Join":
 		return len(JoinFirst(a)) + 1 + 2 + 3 + k + 7
 	}
-	return a + k + map[string]int{"A": 1, "B": 2, "c": 3, "D": 4, "E": 5}[m]
+	return a + k + map[string]int{"A": 1, "B": 2, "c": 3, "D": 4, "E": 5, "Aaa": 8, "Get": 9, "Zzz": 10}[m]
 }
